@@ -15,7 +15,8 @@ RULE = ("four exhaustive families: kinds = every sequence of <=L entries over 13
         "every category, entry without args, profiler 'Trace' span, M/s/f/i entries, entry with dur but no cat) "
         "after a leading host operator; times = a host op + an op + a kernel with every (ts,dur) from the "
         "integer/fractional domain x epoch offsets; ranks = R<=3 rank files with every per-rank skew in {0,1,2} "
-        "and rank ids {0..},{3,5,..}, sequential and real fork-pool parse; order = every permutation of a 5-entry "
+        "and rank ids {0..},{3,5,..}, sequential and real fork-pool parse; magnitude = timestamps/durations whose sum "
+        "crosses the int8/int16/int32 boundary while every single value fits; order = every permutation of a 5-entry "
         "file. Each world is checked after parse-only and after full load, in .json and .json.gz. "
         "non-trivial = some entry must be dropped, or a timestamp is fractional, or ranks are skewed")
 ASSUMPTIONS = [
@@ -117,6 +118,16 @@ def worlds(tier: str, stats: Dict[str, Any]) -> Iterator[Any]:
                                          kineto.meta_event(epoch)]
                     for mp in (False, True) if (R > 1 and skews in ((0,) * R, (2, 0, 1)[:R])) else (False,):
                         yield dict(mode="ranks", ranks=ranks, fmt="json.gz" if epoch else "json", mp=mp)
+    # --- magnitude: the parser downcasts integer columns; sums must not wrap at int8/int16/int32 boundaries
+    for B in (127, 32767, 2**31 - 1):
+        for ts2 in (B - 7, B):
+            for dur2 in (1, 8, B):
+                for ts3 in (3, B - 20):
+                    stats["transitions"] += 1
+                    evs = [kineto.cpu_op("aten::root", 0, 2, ext=0),
+                           kineto.cpu_op("aten::late", ts2, dur2, ext=1),
+                           kineto.kernel("kern_0", ts3, 5, 7, 33)]
+                    yield dict(mode="magnitude", ranks={"0": evs}, fmt="json")
     # --- order
     n = b["perm_n"]
     pool = [("o", 1, 3), ("k", 2, 1), ("M", 0, 0), ("r", 1, 1), ("T", 0, 9), ("x", 4, 1)][: n - 1]
@@ -229,7 +240,7 @@ def check(world) -> Dict[str, Any]:
     frac = any(isinstance(e.get("ts"), float) for evs in ranks.values() for e in evs)
     skew = len({min(x["ts"] for x in rows[r]) for r in ranks}) > 1
     outcome = (tuple(sorted((r, tuple(x["id"] for x in rows[r])) for r in rows))[:2], frac, skew, world["mode"]) \
-        if world["mode"] != "times" else ("times", frac)
+        if world["mode"] not in ("times", "magnitude") else (world["mode"], frac)
     return dict(viol=_dedupe(viol), nontrivial=bool(dropped or frac or skew), outcome=outcome, execs=2)
 
 
